@@ -143,6 +143,13 @@ func (md *Model) explicitField(path string, ft types.Type, named []explicitN) {
 				either = f.either
 				continue
 			}
+			if n.retErr && !(len(f.sources) == 1 && f.sources[0] == n.canon) {
+				// (T, error) fits only through String()/a conversion: not expressible as one two-valued
+				// assignment; "no match" and a form with a temporary are both within the property (C01
+				// decides whether what is emitted compiles)
+				either = "value returned together with an error needs a conversion"
+				continue
+			}
 			srcs = append(srcs, f.sources...)
 			notes = append(notes, f.notes...)
 		case "conv":
@@ -207,6 +214,10 @@ func (md *Model) explicitField(path string, ft types.Type, named []explicitN) {
 				if f := md.fitsPlain(&cn, ft); f != nil {
 					if f.either != "" {
 						either = f.either
+						continue
+					}
+					if sig.Results().Len() > 1 && !(len(f.sources) == 1 && f.sources[0] == cn.canon) {
+						either = "value returned together with an error needs a conversion"
 						continue
 					}
 					srcs = append(srcs, f.sources...)
